@@ -114,9 +114,9 @@ def commStep (s : RsT) (dt : Nat) : RsT :=
   else { s with comm := s.comm + dt }
 
 /-- supla_esp_gpio_rs_add_task for a roller shutter: nothing to do when the reported position already is
-    the target; otherwise the task becomes active (a running task is replaced) -/
+    the target and the shutter is at rest; otherwise the task becomes active (a running task or move is replaced) -/
 def addTask (s : RsT) (g : Nat) : RsT :=
-  if reportedPos s.pos = (g : Int) then s else { s with tstate := 1, target := g, dir := 0 }
+  if reportedPos s.pos = (g : Int) ∧ s.tstate = 0 ∧ s.rel = 0 then s else { s with tstate := 1, target := g, dir := 0 }
 
 /-- a plain move / stop command from the server or a button: cancels the task -/
 def moveCmd (P : RsP) (s : RsT) (want : Nat) : RsT :=
